@@ -103,6 +103,16 @@ func init() {
 				sb = sb[:r.intn(16)] // short seed: UnmarshalBinary fails, Init ignores the error -> zero state
 			}
 			vm := &ds.Context{Seed: sb}
+			if k%3 == 1 {
+				// a context that was seeded and used before: seeding it again must start the new sequence
+				vm.Seed = seedBytes(r)
+				vm.Init()
+				for j := r.intn(4); j > 0; j-- {
+					vm.RandSrc.Uint64()
+				}
+				_ = vm.Run("2d6 + d20")
+				vm.Seed = sb
+			}
 			vm.Init()
 			h0, l0 := srcState(vm.RandSrc)
 			nd := r.intn(6)
